@@ -299,6 +299,51 @@ class ShardCtx:
                 return
             raise HarnessError("internal error in machine %s: %s\n%s" % (sub, e, traceback.format_exc()))
 
+    def drive_fuzz(self, sub, runs):
+        """Thorough tier only: a coverage-guided atheris/libFuzzer campaign over the sub-check's own strategy
+        and oracle (pbt/fuzz.py), in a subprocess of its own. A campaign that cannot run is recorded as skipped -
+        it can neither raise an alarm nor make the check fail; a violation it finds is a violation like any other."""
+        import subprocess
+        import tempfile
+
+        if self.tier != "thorough" and not os.environ.get("VERIF_FUZZ"):
+            return
+        scale = float(os.environ.get("VERIF_BUDGET_SCALE", "1"))
+        runs = max(50, int(runs * scale) // self.nshards)
+        fd, out = tempfile.mkstemp(prefix="pyxab_fuzz_out_", suffix=".json")
+        os.close(fd)
+        os.remove(out)
+        name = "fuzz-" + sub
+        try:
+            env = dict(os.environ, VERIF_REPO=REPO)
+            r = subprocess.run([sys.executable, "-m", "pbt.fuzz", self.prop, sub, self.tier, str(runs), str(self.seed),
+                                str(self.shard), out], cwd=VERIF, env=env, capture_output=True, text=True,
+                               timeout=max(600, runs * 2))
+            if r.returncode not in (0, 3) or not os.path.exists(out):
+                self.col.notes.append("%s skipped in shard %d (exit %s: %s)" % (name, self.shard, r.returncode,
+                                                                               (r.stdout + r.stderr).strip()[-160:]))
+                return
+            d = json.load(open(out))
+        except Exception as e:  # noqa: BLE001 - the campaign is an extra; its own failures are never alarms
+            self.col.notes.append("%s skipped in shard %d (%s)" % (name, self.shard, type(e).__name__))
+            return
+        finally:
+            if os.path.exists(out):
+                os.remove(out)
+        col = self.col
+        col.evaluations += d["evaluations"]
+        col.digests.update(d["digests"])
+        col.rounds += d["rounds"]
+        for k, v in d["classes"].items():
+            col.classes["fuzz:" + k] += v
+        col.known_hits.update(d["known_hits"])
+        col.aborted.update(d["aborted"])
+        col.extra["fuzz_executions:" + sub] += d.get("fuzz_executions", 0)
+        col.extra["fuzz_valid_cases:" + sub] += d["evaluations"]
+        for v in d["violations"]:
+            v["subcheck"] = name
+            col.violations.append(v)
+
     def _degraded(self):
         return any(k.startswith("timeout") or "MemoryError" in k for k in self.col.aborted)
 
